@@ -30,8 +30,8 @@ CHECKS = {
          "bounded by depth/alphabet/configurations listed in the evidence",
          "DESIGN.md §4 C05"),
  "C12": ("explorer", "model_checking",
-         "explicit-state BFS; raw status byte and a mount of the abandoned image examined at every call boundary",
-         "at every call boundary of every history (status byte at mount 0..3, FAT12/16 offset 0x25, FAT32 0x41): a structural change implies the dirty bit is set and an abandoned image mounts as dirty; mount-time bits are never cleared; unmount/drop restores the mount-time byte",
+         "explicit-state BFS; raw status byte and a mount of the abandoned image examined at every call boundary, crash-point enumeration over the device writes inside every call that starts on a clean status byte, single-fault enumeration with follow-up calls",
+         "at every call boundary of every history (status byte at mount 0..3, extended boot signature 0x29/0x28/0x00, FAT12/16 offset 0x25, FAT32 0x41): a structural change implies the dirty bit is set and an abandoned image mounts as dirty; mount-time bits are never cleared; unmount/drop restores the mount-time byte; inside a call no device write changes the decoded volume while the status byte still says clean; after one failed device call and a later successful call (modifying, retried or quiet) the same holds",
          "change detection = reference model (successful mutating calls) OR independent before/after decode; reserved status bits outside {0..3} not explored",
          "DESIGN.md §4 C12"),
  "C13": ("explorer", "model_checking",
@@ -46,8 +46,8 @@ CHECKS = {
          "DESIGN.md §4 C09"),
  "C10": ("explorer", "model_checking",
          "explicit-state BFS on builder-made volumes with 1-3 FAT copies, mirroring on/off with every active copy, pre-set reserved nibbles; byte comparison of FAT copies after every call",
-         "after every call of every history: mirrored copies byte-identical; with mirroring off no write reaches an inactive copy (device log) and inactive copies keep their bytes; entries 0/1, padding entries and FAT32 top nibbles keep their initial values; no chain leaves the volume",
-         "bounded by depth/alphabet/configurations listed in the evidence; volumes made by the independent builder",
+         "after every call of every history: mirrored copies byte-identical; with mirroring off no write reaches an inactive copy (device log) and inactive copies keep their bytes; entries 0/1, padding entries and FAT32 top nibbles keep their initial values (volumes formatted by the library with other media bytes: entry 0 equals the boot sector's media byte); no chain leaves the volume",
+         "bounded by depth/alphabet/configurations listed in the evidence; volumes made by the independent builder, plus library-formatted ones",
          "DESIGN.md §4 C10"),
  "C11": ("explorer", "model_checking",
          "explicit-state BFS with a device-log monitor: every write of the last call classified against the independent decoder's region/ownership map of the pre-state",
@@ -56,7 +56,7 @@ CHECKS = {
          "DESIGN.md §4 C11"),
  "C14": ("crash-enumerator", "fault_enumeration",
          "exhaustive crash-point enumeration over the device write log of every explored history; each crash image remounted with the crate and decoded independently",
-         "for every explored history with a durability point (successful flush/drop of f, f not modified afterwards) and every later cut: every prefix of the device writes, loss of everything after the last device flush (thorough: bounded subsets of unflushed writes) still yields f with exactly the flushed content",
+         "for every explored history with a durability point (successful flush/drop of f, f not modified afterwards) and every later cut: every prefix of the device writes, loss of everything after the last device flush (thorough: bounded subsets of unflushed writes) still yields f with exactly the flushed content; single storage faults in write / flush / truncate of f followed by retry or carry-on and flush",
          "whole-call write granularity (no torn sectors); device honours flush as a barrier",
          "DESIGN.md §4 C14"),
  "C06": ("input-enumerator", "exploration",
